@@ -219,8 +219,9 @@ def closeRank : Pc → Nat
 def csRank : Pc → Nat
   | .x12 | .r66 _ _ _ | .k104 _ | .x15 | .w44 _ | .c52 _ => 2
   | .x13 | .r67 _ _ _ | .k105 _ | .x16 | .w45 _ | .c53 _ => 1
-  | .s33 _ _ | .s37 _ _ | .r74 _ _ | .r78 _ _ | .p83 _ _ _ | .p87 _ _ _ => 3
-  | .s34 _ _ | .r75 _ _ | .p84 _ _ _ => 2
+  | .r74 _ _ | .r78 _ _ | .p83 _ _ _ | .p87 _ _ _ => 4
+  | .s33 _ _ | .s37 _ _ | .r75 _ _ | .p84 _ _ _ => 3
+  | .s34 _ _ | .r75r _ _ | .p84r _ _ _ => 2
   | .s35 _ _ | .s36 _ _ | .s38 _ _ _ | .r76 _ _ | .r77 _ _ | .r79 _ | .p85 _ _ _ | .p86 _ _ _ | .p88 _ _ _ _ => 1
   | _ => 0
 
@@ -326,7 +327,7 @@ theorem done_stable (cfg : Cfg) (sh sh' : Sh) (me : Tid) (th th' : Th) (hd : sh.
 
 /-- is this the program counter of a wait-loop test / entry check that looks at `done` -/
 def doneTest : Pc → Bool
-  | .s30 _ | .w40 _ | .s34 _ _ | .r75 _ _ | .p84 _ _ _ | .g110 _ _ => true
+  | .s30 _ | .w40 _ | .s34 _ _ | .s39 _ _ | .r75 _ _ | .p84 _ _ _ | .g110 _ _ => true
   | _ => false
 
 /-- `waitForWriteSpace` fails: the caller of the ring gets the error, or — inside `ReadFrom` —
@@ -347,7 +348,7 @@ theorem done_exits (cfg : Cfg) (sh sh' : Sh) (me : Tid) (th th' : Th) (hd : sh.d
     (ht : doneTest th.pc = true) (hs : tstep cfg sh me th = some (sh', th')) :
     (th'.pc = .idle ∧ ∃ r, th'.res = some r ∧ r.err = .eof) ∨
     (th'.pc = .x10 ∧ ∃ n, th'.cur = some (.rfret n .eof)) ∨
-    (∃ n p, th'.pc = .s35 n p) ∨ (∃ n c, th'.pc = .r76 n c) ∨ (∃ w n c, th'.pc = .p85 w n c) := by
+    (∃ n p, th'.pc = .s35 n p) ∨ (∃ n c, th'.pc = .r75r n c) ∨ (∃ w n c, th'.pc = .p84r w n c) := by
   have hcr := tstep_crash _ _ _ _ _ hs
   obtain ⟨pc, prog, cur, slice, filled, view, pending, res⟩ := th
   cases pc <;> simp only [doneTest, Bool.false_eq_true] at ht
@@ -358,8 +359,33 @@ theorem done_exits (cfg : Cfg) (sh sh' : Sh) (me : Tid) (th th' : Th) (hd : sh.d
     rcases wfsErr_cases ⟨Pc.s30 n, prog, cur, slice, filled, view, pending, none⟩ .eof with h | h
     · exact Or.inl h
     · exact Or.inr (Or.inl h)
+  case s39 n ppos =>
+    rcases wfsErr_cases ⟨Pc.s39 n ppos, prog, cur, slice, filled, view, pending, none⟩ .eof with h | h
+    · exact Or.inl h
+    · exact Or.inr (Or.inl h)
   case g110 tot ms => exact Or.inr (Or.inl ⟨rfl, _, rfl⟩)
   all_goals simp [Th.goto, Th.ret]
+
+/-- a consumer that has seen `done` loads the producer cursor once more and then leaves its wait loop either way:
+through the end-of-stream exit if the data is still missing, with the data otherwise — never into `Wait` (F9) -/
+theorem reread_exits (cfg : Cfg) (sh sh' : Sh) (me : Tid) (th th' : Th)
+    (ht : (∃ n c, th.pc = .r75r n c) ∨ (∃ w n c, th.pc = .p84r w n c))
+    (hs : tstep cfg sh me th = some (sh', th')) :
+    sh' = sh ∧
+    ((∃ n c, th'.pc = .r76 n c ∧ sh.pseq ≤ c) ∨ (∃ n, th'.pc = .r79 n) ∨
+     (∃ w n c, th'.pc = .p85 w n c ∧ mustWait w n c sh.pseq = true) ∨
+     (∃ w n c, th'.pc = .p88 w n c sh.pseq ∧ mustWait w n c sh.pseq = false)) := by
+  have hcr := tstep_crash _ _ _ _ _ hs
+  obtain ⟨pc, prog, cur, slice, filled, view, pending, res⟩ := th
+  rcases ht with ⟨n, c, rfl⟩ | ⟨w, n, c, rfl⟩
+  · tstep_norm
+    rcases hs with ⟨h1, rfl, rfl⟩ | ⟨h1, rfl, rfl⟩
+    · exact ⟨rfl, Or.inl ⟨n, c, rfl, h1⟩⟩
+    · exact ⟨rfl, Or.inr (Or.inl ⟨n, rfl⟩)⟩
+  · tstep_norm
+    rcases hs with ⟨h1, rfl, rfl⟩ | ⟨h1, rfl, rfl⟩
+    · exact ⟨rfl, Or.inr (Or.inr (Or.inl ⟨w, n, c, rfl, h1⟩))⟩
+    · exact ⟨rfl, Or.inr (Or.inr (Or.inr ⟨w, n, c, rfl, by simpa using h1⟩))⟩
 
 /-- …and those unlock-and-return statements return `eof` with the mutex released (inside
 `ReadFrom`: its deferred `Close` begins, with the mutex released) -/
